@@ -50,18 +50,18 @@ type Sub struct {
 }
 
 type Target struct {
-	S1  string            `mapstructure:"s1"`
-	S2  string            `mapstructure:"s2"`
-	S3  string            `mapstructure:"s3"`
-	I   int               `mapstructure:"i"`
-	B   bool              `mapstructure:"b"`
-	F   float64           `mapstructure:"f"`
-	M   map[string]any    `mapstructure:"m"`
-	MS  map[string]string `mapstructure:"ms"`
-	L   []any             `mapstructure:"l"`
-	LS  []string          `mapstructure:"ls"`
+	S1  string              `mapstructure:"s1"`
+	S2  string              `mapstructure:"s2"`
+	S3  string              `mapstructure:"s3"`
+	I   int                 `mapstructure:"i"`
+	B   bool                `mapstructure:"b"`
+	F   float64             `mapstructure:"f"`
+	M   map[string]any      `mapstructure:"m"`
+	MS  map[string]string   `mapstructure:"ms"`
+	L   []any               `mapstructure:"l"`
+	LS  []string            `mapstructure:"ls"`
 	MLS map[string][]string `mapstructure:"mls"`
-	Sub Sub               `mapstructure:"sub"`
+	Sub Sub                 `mapstructure:"sub"`
 }
 
 // Full is the target of the direct Unmarshal of a nested script.
